@@ -92,7 +92,7 @@ fn main() {
             let mut v = total.to_json();
             v["property"] = json!(id); v["tier"] = json!(if ctx.quick() { "quick" } else { "thorough" }); v["seed"] = json!(seed);
             v["wall_s"] = json!(t0.elapsed().as_secs_f64());
-            v["table_order_fingerprint"] = json!(format!("{:016x}", asca::verif::table_order_fingerprint()));
+            if !args.iter().any(|a| a == "--miri-slice") { v["table_order_fingerprint"] = json!(format!("{:016x}", asca::verif::table_order_fingerprint())); }
             v
         }
         "replay" if get("--c01-one").is_some() => { let _ = replay(&ctx, &Value::Null); return }
